@@ -52,12 +52,19 @@ Definition v9_pnum (v : fval) : option N :=
   | VProto d => if d =? vdisc proto_variants "Unknown" then None else Some (proto_to_u8 d)
   | _ => fval_un 8 v
   end.
+(* v9_protocol_type of netflow_common.rs (repair of the view's protocol name): the name the
+   record was decoded with; a plain number is looked up in From<u8> *)
+Definition v9_ptype (v : fval) : option N :=
+  match v with
+  | VProto d => if d =? vdisc proto_variants "Unknown" then None else Some d
+  | _ => option_map proto_from_u8 (fval_un 8 v)
+  end.
 Definition v9_upt (v : fval) : option N :=
   match v with
   | VDur secs nanos => let ms := secs * 1000 + nanos / 1000000 in if ms <? 2 ^ 32 then Some ms else None
   | _ => fval_un 32 v
   end.
-Definition common_flow (vs : list (N * string)) (pnum upt : fval -> option N)
+Definition common_flow (vs : list (N * string)) (pnum ptype upt : fval -> option N)
   (src4 src6 dst4 dst6 sport dport proto first last smac dmac : string) (rec : list (N * fval)) : cflow :=
   let g := fun name => get_last (vdisc vs name) rec in
   {| c_src := opt_bind (opt_or (g src4) (g src6)) fval_ip;
@@ -65,18 +72,18 @@ Definition common_flow (vs : list (N * string)) (pnum upt : fval -> option N)
      c_sport := opt_bind (g sport) (fval_un 16);
      c_dport := opt_bind (g dport) (fval_un 16);
      c_pnum := opt_bind (g proto) pnum;
-     c_ptype := option_map proto_from_u8 (opt_bind (g proto) pnum);
+     c_ptype := opt_bind (g proto) ptype;
      c_first := opt_bind (g first) upt;
      c_last := opt_bind (g last) upt;
      c_smac := opt_bind (g smac) fval_string;
      c_dmac := opt_bind (g dmac) fval_string |}.
 
 Definition v9_common_flow : list (N * fval) -> cflow :=
-  common_flow v9_variants v9_pnum v9_upt "Ipv4SrcAddr" "Ipv6SrcAddr" "Ipv4DstAddr" "Ipv6DstAddr"
+  common_flow v9_variants v9_pnum v9_ptype v9_upt "Ipv4SrcAddr" "Ipv6SrcAddr" "Ipv4DstAddr" "Ipv6DstAddr"
     "L4SrcPort" "L4DstPort" "Protocol" "FirstSwitched" "LastSwitched" "InSrcMac" "InDstMac".
 
 Definition ipfix_common_flow : list (N * fval) -> cflow :=
-  common_flow ipfix_variants (fval_un 8) (fval_un 32) "SourceIpv4address" "SourceIpv6address"
+  common_flow ipfix_variants (fval_un 8) (fun v => option_map proto_from_u8 (fval_un 8 v)) (fval_un 32) "SourceIpv4address" "SourceIpv6address"
     "DestinationIpv4address" "DestinationIpv6address"
     "SourceTransportPort" "DestinationTransportPort" "ProtocolIdentifier"
     "FlowStartSysUpTime" "FlowEndSysUpTime" "SourceMacaddress" "DestinationMacaddress".
